@@ -31,7 +31,21 @@ EXHAUSTIVE = {"quick": False, "thorough": False}
 N_SPECS = {"quick": 6000, "thorough": 300000}
 
 
+# multi-source tools over sources of very unequal lengths incl. EMPTY ones at every position: bookkeeping by
+# position (which source ended, which are still to be closed) must survive sources dropping out
+UNEQUAL = [[[], [0, 1, 2, 3], [0]], [[0], [], [0, 1, 2]], [[0, 1, 2], [0], []], [[], [], [0, 1]], [[0, 1, 2, 3], [1]], [[2], [0, 1, 2, 3]]]
+
+
 def cases(tier, seed, shard, nshards):
+    k = 0
+    for tool, params in (("merge", {}), ("zip_longest", {}), ("chain", {}), ("zip", {}), ("map", {})):
+        for srcs in UNEQUAL:
+            for fl in ("async_class", "async_gen"):
+                k += 1
+                if k % nshards == shard:
+                    spec = {"tool": tool, "srcs": [list(x) for x in srcs], "fns": ["mk"] if tool == "map" else
+                            [None] if tool == "merge" else [], "params": dict(params)}
+                    yield {"kind": "tool", "spec": spec, "flav": [fl] * len(srcs), "susp": 1, "fn_susp": 0, "fnfl": "async_def"}
     rng = random.Random(f"C18-{seed}-{shard}")
     n = N_SPECS[tier] // nshards
     names = [x for x in gen.ITER_TOOL_NAMES if x != "iter_sentinel"] + gen.AGG_NAMES
